@@ -64,12 +64,14 @@ func main() {
 			ov[k] = []byte(v)
 		}
 	}
-	code := run(*prop, *tier, *repo, *verif, ov, f, *noEvidence)
-	if code == 0 && *tier == "thorough" && ov == nil {
+	st := 0
+	if *tier == "thorough" && ov == nil {
 		// thorough = quick rules with the VTA call graph (done in run) + checker self-validation
-		if st := runSelfTest(*prop, *repo, *verif); st != 0 {
-			code = st
-		}
+		st = runSelfTest(*prop, *repo, *verif)
+	}
+	code := run(*prop, *tier, *repo, *verif, ov, f, *noEvidence)
+	if code == 0 && st != 0 {
+		code = st
 	}
 	os.Exit(code)
 }
@@ -117,6 +119,8 @@ func run(prop, tier, repo, verif string, ov map[string][]byte, f propFunc, noEvi
 	}
 	extra := map[string]interface{}{}
 	if tier == "thorough" {
+		extra["self_validation"] = lastSelfTest
+		extra["self_validation_rule"] = "each variant is one exact-once textual substitution applied through a type-checker overlay; kill variants must be reported by the named rule, silent (behaviour-preserving) variants must not be reported"
 		extra["call_graph"] = "VTA over CHA (whole program)"
 	} else {
 		extra["call_graph"] = "static callees + CHA over repository types + signature-matched function values"
